@@ -36,10 +36,10 @@ def main():
     # 1. demo with / without, test suite with
     rc_with, o = sh(f"{PY} {demo}", cwd=wt, pypath=wt)
     meta["ran"].append({"cmd": "demo.py with the change", "rc": rc_with, "tail": o[-300:]})
-    sh("git stash", cwd=wt)
+    sh(f"git apply -R {patch}", cwd=wt)          # (no `git stash`: the stash is shared by all worktrees of a repository)
     rc_without, o = sh(f"{PY} {demo}", cwd=wt, pypath=wt)
     meta["ran"].append({"cmd": "demo.py without the change", "rc": rc_without, "tail": o[-300:]})
-    sh("git stash pop", cwd=wt)
+    sh(f"git apply {patch}", cwd=wt)
     rc_t, o = sh(f"{PY} -m pytest -q -p no:cacheprovider tests 2>&1 | tail -3", cwd=wt, pypath=wt)
     meta["ran"].append({"cmd": "pytest tests (with the change)", "rc": rc_t, "tail": o[-300:]})
     passed = " passed" in o and "failed" not in o and "error" not in o.lower()
